@@ -411,3 +411,17 @@ Definition csv_facts_ok : bool :=
   && (match CF.pos_limit_cmp with CGt => true | _ => false end)
   && (CF.MAX_POS_IDS <=? 65534)%Z && (0 <=? CF.MAX_POS_IDS)%Z
   && (CF.MAX_ARRAY_LEN <=? 127)%Z && (CF.WORD_MASK =? 268435455)%Z.
+
+(* the POS requests of a lexicon in file order (inline references of columns 15 and 16 of a row, then the row's own),
+   numbered one after the other: what parse_records does to LexiconReader.pos *)
+Fixpoint assign (st : pos_state) (ps : list posrow) : res (pos_state * list N) :=
+  match ps with
+  | [] => ROk (st, [])
+  | p :: t => do si <- pos_of st p; do r <- assign (fst si) t; ROk (fst r, snd si :: snd r)
+  end.
+(* the requests that are new when they come, each once, in order of first appearance *)
+Fixpoint new_rows (st : list posrow) (ps : list posrow) : list posrow :=
+  match ps with
+  | [] => []
+  | p :: t => if existsb (posrow_eqb p) st then new_rows st t else p :: new_rows (st ++ [p]) t
+  end.
